@@ -367,9 +367,15 @@ theorem closedLive_strip (wc : Bool) {s : Sess} (h : ClosedLive s) : ClosedLive 
   rw [ids_strip]
   exact h m hm r (by simpa [stripNode, strip_refs] using hr)
 
-/-- every Part 21 comment an instance carries is within what `ReadComment` reads back (`Generated.maxCommentLength` = 8192
-    characters; a longer one is abandoned and the record behind it skipped — KNOWN_FINDINGS `layout:comment-above-8192`, C10) -/
-def CommentBound (s : Sess) : Prop := ∀ n ∈ s.nodes, n.inst.comment.length ≤ maxCommentLength
+/-- every Part 21 comment an instance carries is within what `ReadComment` reads back (`Generated.commentLengthLimit`; while it
+    was `some 8192` a longer comment was abandoned and the record behind it skipped) -/
+def CommentBound (s : Sess) : Prop := ∀ n, commentLengthLimit = some n → ∀ x ∈ s.nodes, x.inst.comment.length ≤ n
+
+/-- hard tie: since repair C01-9 (9cc7a1b5) `ReadComment` restarts its counter while characters keep arriving — comments of any
+    length are read —, hence `CommentBound`, the hypothesis the comment theorems carry, holds for EVERY session (reverting the
+    repair makes this fail and the bound of 8192 characters bite again) -/
+theorem C16_comments_any_length : commentLengthLimit = none ∧ ∀ s : Sess, CommentBound s :=
+  ⟨rfl, fun _ n h => by cases h⟩
 
 /-- Save with `writeComments = wc`, load into ANY STEPfile (whatever it read before), comments within `ReadComment`'s limit: the not-deleted instances come back in
     order with ids, types, values, references, states and — when comments were written — their Part 21 comments; the
@@ -386,8 +392,7 @@ theorem C16_file_roundtrip (wc : Bool) (asev : Inst → Sev) (prev s : FSess)
     intro h; exact absurd h (by decide)
 
 /-- with comments written (the default) nothing at all is lost: the session is the not-deleted part of the saved one
-    (`_hb`: for comments within `ReadComment`'s limit — the entry-level model carries a comment as a string of any length, the
-    code does not) -/
+    (`_hb`: for comments within `ReadComment`'s limit, if it has one — `C16_comments_any_length`: the code at hand has none) -/
 theorem C16_file_roundtrip_comments (asev : Inst → Sev) (prev s : FSess)
     (hs : Inv s.sess) (hn : NoNoState s.sess) (hc : ClosedLive s.sess) (hd : DelBound s.sess) (_hb : CommentBound s.sess) :
     (readWorkingFile id asev prev (writeWorkingFile true s)).sess.nodes = live s.sess := by
@@ -455,7 +460,7 @@ example : EntryText ([35, 50, 61, 73, 40] ++ ((39 :: ([97, 59, 98] ++ [39])) ++ 
 open StepModel.P21 StepModel.P21.RLemmas StepModel.SkipEntry in
 example : EntryText ([35, 50, 61, 73, 40] ++ ((47 :: 42 :: ([59] ++ [42, 47])) ++ [49, 41])) :=
   .plain (by decide) (.plain (by decide) (.plain (by decide) (.plain (by decide) (.plain (by decide)
-    (.comment (by decide) (by decide) (.plain (by decide) (.plain (by decide) .nil)))))))
+    (.comment (by decide) (by intro n h; cases h) (.plain (by decide) (.plain (by decide) .nil)))))))
 
 /-- hard tie: skipped `D` entries are NOT counted as records that yielded no instance (repair C16-1, dd52d6f0; regenerated from
     ReadData1/ReadData2), hence `DelBound` — the hypothesis every theorem above carries — holds for EVERY session.  Before that
@@ -607,7 +612,7 @@ example : Inv exS ∧ NoNoState exS ∧ ClosedLive exS ∧ DelBound exS ∧ Comm
   · unfold NoNoState; decide
   · unfold ClosedLive; decide
   · unfold DelBound; decide
-  · unfold CommentBound; decide
+  · exact C16_comments_any_length.2 exS
 
 open StepModel.HeaderIds in
 example : notFixed "SECTION_LANGUAGE" ∧ notFixed "FILE_POPULATION" := by unfold notFixed; decide
